@@ -411,6 +411,16 @@ class Machine:
         if self.profile == "copy":
             # C14: mostly duplicate / replace / dataclasses.replace over a few constructed trees
             k = {True: k * 0.28, False: 0.28 + (k - 0.25) / 0.75 * 0.30 if k < 0.8 else 0.58 + (k - 0.8) / 0.2 * 0.42}[k < 0.25]
+        if self.profile == "serial":
+            # C04: many serialize / as_obj / drop
+            if k < 0.3:
+                k = k / 0.3 * 0.28
+            elif k < 0.65:
+                k = 0.75 + (k - 0.3) / 0.35 * 0.12
+            elif k < 0.8:
+                k = 0.93
+            else:
+                k = 0.28 + (k - 0.8) / 0.2 * 0.47
         if k < 0.28:
             r = self.op_construct()
         elif k < 0.38:
